@@ -656,6 +656,9 @@ func GoNamed(name string, fn func()) {
 func Yield(label string) {
 	s, th := current()
 	if s == nil {
+		if freeMode.Load() {
+			runtime.Gosched()
+		}
 		return
 	}
 	s.park(th, op{kind: opYield, label: label})
@@ -665,6 +668,11 @@ func Yield(label string) {
 func Quiesce() {
 	s, th := current()
 	if s == nil {
+		if freeMode.Load() {
+			// free run inside a bubble: a virtual-time sleep returns once every
+			// other goroutine is durably blocked
+			time.Sleep(time.Millisecond)
+		}
 		return
 	}
 	s.park(th, op{kind: opQuiesce})
@@ -693,6 +701,9 @@ func ChooseCost(n int) int {
 // Choose is an environment choice with n alternatives (0 is the default).
 func Choose(n int) int {
 	s, th := current()
+	if s == nil && n > 1 && freeMode.Load() {
+		return int((freeCtr.Add(1) * 2654435761 >> 11) % uint64(n))
+	}
 	if s == nil || n <= 1 {
 		return 0
 	}
@@ -726,6 +737,12 @@ func LogOrdered(format string, a ...any) {
 }
 
 var logObj = new(int)
+
+// freeMode: scenario bodies are being run without a scheduler (race pass).
+var (
+	freeMode atomic.Bool
+	freeCtr  atomic.Uint64
+)
 
 // Logf appends an observation to the execution log.
 func Logf(format string, a ...any) {
